@@ -44,6 +44,15 @@ LEG = {
  'zzC16Wrapper': "The handler may also pre-set StructuredContent by hand: what the client gets is still the typed output, defaulted and validated.",
  'zzC18SubscribeHistory': "Histories of subscribe / unsubscribe / disconnect (4 steps, thorough 5) over two sessions and two URIs: the recipients of a resource update are exactly the sessions whose last action on that URI was a subscribe and that are still connected.",
  'zzC12Agreement': "Every header value the client emits is transmittable over HTTP as is (no control characters other than HTAB, no DEL — net/http refuses to send such a value).",
+ 'zzC05IOClose': "Closers of the io-based transports (rwc, ioConn): Close releases BOTH halves whatever either reports (the peer only sees end of input when the write half is closed), reports every failure, closes each half once however often it is called; afterwards Read and Write fail.",
+ 'zzC18Mutators': "The public mutators (AddTool/RemoveTools, AddPrompt/RemovePrompts, AddResource/RemoveResources) over a history of 3 (thorough 4) operations with a legacy session connected: a new name, a REPLACED definition under an existing name and a removal of something served each leave a notification owed (the debounce timer of that kind armed); removing what is not there owes nothing; nothing goes out inline.",
+ 'zzC12Lookup': "lookupArgument against plain navigation on argument documents three levels deep where every member may be absent and an enclosing object may hold a member named like the leaf: found iff every step of the path is there, and then the value at exactly that path.",
+ 'zzC19Logging': "LoggingHandler.handle over 2-3 records through one handler (shared encode buffer, real bytes.Buffer): one notification per record whose data is the JSON of that record, and the params of an earlier record are untouched by later ones (they are encoded for the wire only afterwards).",
+ 'zzC13PingIsSent': "ServerSession.Ping in every lifecycle state (nothing received, initialize answered, initialized, 2026-07-28): exactly one ping request is sent and its outcome reported — a peer silent before finishing the handshake misses pings like any other.",
+ 'zzC16TypedNumber': "A typed handler with an int64 argument receives exactly the integer the client sent, for every int64 (defect D13, fixed: the wrapper re-marshaled through float64).",
+ 'zzConnCancel': "Cancel(id) of an inbound request leaves this connection's outgoing calls alone, also one bearing the very same number (inbound and outbound ids are independent number spaces).",
+ 'zzC10Route': "With an event store whose Append fails the message still goes out on the live exchange, and whatever Write reports wraps ErrRejected (a plain error would make jsonrpc2 tear the connection down behind the HTTP handler's back, leaving a dead session id that is still honoured: C11).",
+ 'zzC07ArbitraryPeer': "Connect leaves the caller's ClientSessionOptions as they were (a caller re-using the value for its next Connect asks for what it wrote there).",
  'zzC14Decision': "The HTTP method (any of nine, symbolic) and ambient headers (CORS preflight markers, forwarding headers, cookies; optional map entries) are arbitrary and must not influence the decision; expirations up to ~35 000 years ahead (time.Duration saturation).",
 }
 ADD_ASSUME = {
